@@ -172,6 +172,7 @@ class FnDirective:
         self.rewrites = []    # dict(kind,count,old,new,why)
         self.nocanary = False
         self.split = 0
+        self.split_match = 1
         self.split_stub = ''
 
 
@@ -256,6 +257,8 @@ def parse_template(path):
                     fd.mode = d[1]
                 elif k == 'nocanary':
                     fd.nocanary = True
+                elif k == 'splitmatch':
+                    fd.split_match = int(d[1])
                 elif k == 'split':
                     fd.split = int(d[1])
                     fd.split_stub = l.strip()[3:].strip()[len('split'):].strip()[len(d[1]):].strip()
@@ -471,6 +474,20 @@ def match_arms(text, mask, match_pos):
             b += 1
         if mask[b] == '{':
             e = match_close(mask, b) + 1
+        elif re.match(r'(if|match)\b', mask[b:b + 6]):
+            # an expression with a block (`if .. {} else {}`, `match .. {}`): the arm ends with its last
+            # block, the `,` after it is optional
+            e = b
+            while True:
+                hb2 = header_brace(mask, e)
+                e = match_close(mask, hb2) + 1
+                m2 = re.match(r'\s*else\b\s*', mask[e:])
+                if not m2:
+                    break
+                e += m2.end()
+                if mask[e] == '{':
+                    e = match_close(mask, e) + 1
+                    break
         else:
             d = 0
             e = b
@@ -512,10 +529,12 @@ def split_by_arms(full, full_lines, line_metas, fd, item, canary):
             sig_br = k
             break
         k += 1
-    mm = re.search(r'\bmatch\b', mask[sig_br:])
-    if not mm:
-        raise LostAnchor("split: no match in %s" % item)
-    mpos = sig_br + mm.start()
+    # `split K STUB`: the K-th `match` keyword of the body (K = 1 unless the template says `splitmatch K`)
+    mms = list(re.finditer(r'\bmatch\b', mask[sig_br:]))
+    want = getattr(fd, 'split_match', 1)
+    if len(mms) < want:
+        raise LostAnchor("split: no match #%d in %s" % (want, item))
+    mpos = sig_br + mms[want - 1].start()
     arms, ob, cb = match_arms(full, mask, mpos)
     if len(arms) < 2:
         raise LostAnchor("split: fewer than two arms in %s" % item)
